@@ -357,11 +357,8 @@ Definition print_xfcc (es : list (list item)) : str := join c_comma (map print_e
 Definition key_char (c : N) : bool :=
   negb ((c =? c_quote) || (c =? c_comma) || (c =? c_semi) || (c =? c_eq) || is_space c).
 Definition bare_char (c : N) : bool := negb ((c =? c_quote) || (c =? c_comma) || (c =? c_semi)).
-Definition no_edge_space (v : str) : bool :=
-  match v with
-  | [] => true
-  | c :: _ => negb (is_space c) && match rev v with l :: _ => negb (is_space l) | [] => true end
-  end.
+Definition hd_ok (s : str) : bool := match s with [] => true | c :: _ => negb (is_space c) end.
+Definition no_edge_space (v : str) : bool := hd_ok v && hd_ok (rev v).
 Definition wf_item (it : item) : bool :=
   forallb key_char (it_key it) &&
   (it_quoted it || (forallb bare_char (it_value it) && no_edge_space (it_value it))).
@@ -391,6 +388,10 @@ Definition elem_nonempty (e : elem) : bool :=
 (* percent-encoding of every character of an ASCII string: '%XX' *)
 Definition hexdig (n : N) : N := if n <? 10 then 48 + n else 55 + n.
 Definition pct_all (v : str) : str := flat_map (fun c => [c_pct; hexdig (c / 16); hexdig (c mod 16)]) v.
+
+Definition is_ascii (v : str) : bool := forallb (fun c => c <? 128) v.
+Definition opt_ascii (o : option str) : bool := match o with Some v => is_ascii v | None => true end.
+Definition elem_url_ascii (e : elem) : bool := opt_ascii (e_cert e) && opt_ascii (e_uri e) && opt_ascii (e_by e).
 
 (* ---- correspondence entry point ---- *)
 Inductive case_in :=
